@@ -1,7 +1,7 @@
 SPEC = {
     "id": "C13",
     "harness": "c13",
-    "n": {"quick": 450, "thorough": 9000},
+    "n": {"quick": 600, "thorough": 9000},
     "shard": 70,
     "tie_codes": (),
     "trusted_base": [
